@@ -20,10 +20,6 @@ var refTwirpCode = [17]string{"", "canceled", "unknown", "invalid_argument", "de
 	"permission_denied", "resource_exhausted", "failed_precondition", "aborted", "out_of_range", "unimplemented", "internal",
 	"unavailable", "dataloss", "unauthenticated"}
 
-func vfIsJSONPlain(c byte) bool {
-	return c >= 0x20 && c < 0x7f && c != '"' && c != '\\' && c != '<' && c != '>' && c != '&'
-}
-
 // VerifH_serveHTTP_status (C05, C18): a failing (or succeeding) unary call over HTTP transcoding and
 // Twirp: documented HTTP status, google.rpc.Status body with equal code and message under the
 // negotiated type, Twirp name of the code and message, status written once; interceptor and stats
@@ -61,9 +57,13 @@ func VerifH_serveHTTP_status() {
 			}
 		}
 		srv.err = status.Error(code, msg)
-		if vfBool() {
-			srv.sendHdrFirst = true // the handler sends its headers explicitly before failing
+	}
+	if vfBool() {
+		srv.sendHdrFirst = true // the handler sends its headers explicitly before replying / failing
+		if fail {
 			vfCover("header-then-error")
+		} else {
+			vfCover("header-then-reply")
 		}
 	}
 	hv := vfPlainString(2)
